@@ -35,6 +35,7 @@ struct Opts {
   int verbose = 0;
   std::string avoid;        // comma separated quarantine switches
   int catalogue = 2000;     // purity probe catalogue size
+  std::string first_cache;  // purity: precomputed first-call results (written by batch "first")
   bool print_log = false;
 };
 static Opts O;
@@ -285,7 +286,8 @@ static void run_threads(const Plan& p) {
     TaskCtx ctx[MAXTASK];
     TaskCtx* saved = t_task;
     for (int t = 0; t < n; t++) {
-      ctx[t] = *saved;
+      ctx[t] = TaskCtx();
+      ctx[t].stack_lo = saved->stack_lo; ctx[t].stack_hi = saved->stack_hi;
       ctx[t].id = t;
       ctx[t].events = 0;
       t_task = &ctx[t];
@@ -491,6 +493,20 @@ static std::string probe_key(const Op& o, int locale) {
 
 static bool nontrivial_plan(const Plan& p, const Outcome& o);
 
+static OpResult first_call(const Op& op, int locale, uint64_t seed) {
+  Plan single;
+  single.engine = "purity"; single.batch = "first"; single.seed = seed; single.runseed = 0; single.locale = locale;
+  single.tasks.push_back(TaskPlan());
+  Op q = op; q.id = 1;
+  single.tasks[0].ops.push_back(q);
+  Outcome f = run_forked(single);
+  g_first_runs++;
+  OpResult r{0, 0, 0, 0, 0, 0};
+  if (f.status == ST_OK && !f.res[0].empty()) r = f.res[0][0];
+  else r.done = 0;   // the probe itself misbehaves alone: reported by the other engines, not comparable here
+  return r;
+}
+
 static Outcome evaluate(const Plan& p, bool count = true, bool keep_log = false) {
   if (p.engine == "purity") {
     // oracle 1: every probe's result equals its first-call-in-a-fresh-process result
@@ -498,17 +514,7 @@ static Outcome evaluate(const Plan& p, bool count = true, bool keep_log = false)
       if (!op.probe) continue;
       std::string key = probe_key(op, p.locale);
       if (g_first_cache.count(key)) continue;
-      Plan single;
-      single.engine = "purity"; single.batch = "first"; single.seed = p.seed; single.runseed = 0; single.locale = p.locale;
-      single.tasks.push_back(TaskPlan());
-      Op q = op; q.id = 1;
-      single.tasks[0].ops.push_back(q);
-      Outcome f = run_forked(single);
-      g_first_runs++;
-      OpResult r{0, 0, 0, 0, 0, 0};
-      if (f.status == ST_OK && !f.res[0].empty()) r = f.res[0][0];
-      else r.done = 0;   // the probe itself misbehaves alone: reported by the other engines, not comparable here
-      g_first_cache[key] = r;
+      g_first_cache[key] = first_call(op, p.locale, p.seed);
     }
     Outcome o = run_forked(p, keep_log);
     if (count) accumulate_counters();
@@ -589,7 +595,10 @@ static Outcome evaluate(const Plan& p, bool count = true, bool keep_log = false)
 
 // ------------------------------------------------------------------ minimisation (DESIGN §2.8)
 static int g_shrink_runs = 0;
+static double g_shrink_deadline = 0;      // wall-clock cap for one minimisation (bounds the check's run time only;
+static double g_gate_time_total = 0;      //  every accepted candidate is still verified by deterministic re-execution)
 static bool still_fails(const Plan& p, const std::string& key) {
+  if (g_shrink_deadline > 0 && now_s() > g_shrink_deadline) return false;
   g_shrink_runs++;
   Outcome o = evaluate(p, false);
   return o.has(key);
@@ -730,8 +739,16 @@ static void gate_and_record(const Plan& plan, const Outcome& first, long index) 
       ex.sched.directives = again.dirs;
       if (still_fails(ex, key)) work = ex;
     }
-    // (2) minimise
-    Plan min = minimise(work, key, O.tier == "thorough" ? 600 : 300);
+    // (2) minimise (bounded in wall-clock per signature and per worker)
+    double tg = now_s();
+    double cap = O.tier == "thorough" ? 30 : 6;
+    double total_cap = O.tier == "thorough" ? 300 : std::max(8.0, O.budget_s);
+    Plan min = work;
+    if (g_gate_time_total < total_cap) {
+      g_shrink_deadline = tg + cap;
+      min = minimise(work, key, O.tier == "thorough" ? 600 : 300);
+      g_shrink_deadline = 0;
+    }
     rec.shrink_runs = g_shrink_runs;
     rec.min_ops = min.nops();
     // (3) the replay file must fail the same way twice, from the file
@@ -748,6 +765,7 @@ static void gate_and_record(const Plan& plan, const Outcome& first, long index) 
       for (auto& x : r1.sigs) if (x.key() == key) rec.detail = x.detail;
     }
     rec.gate = ok ? "ok" : "replay-failed";
+    g_gate_time_total += now_s() - tg;
   }
 }
 
@@ -904,6 +922,7 @@ int main(int argc, char** argv) {
     else if (a == "--tag") O.tag = next();
     else if (a == "--avoid") O.avoid = next();
     else if (a == "--catalogue") O.catalogue = atoi(next().c_str());
+    else if (a == "--first-cache") O.first_cache = next();
     else if (a == "--print-log") O.print_log = true;
     else if (a == "-v") O.verbose++;
     else usage();
@@ -956,6 +975,40 @@ int main(int argc, char** argv) {
 
   uint64_t master = splitmix64(O.seed ^ tag_of(O.engine));
   if (O.engine == "purity") build_catalogue(master);
+  if (O.engine == "purity" && O.batch == "first") {
+    // oracle 1, reference side: every catalogue probe as the first and only library call of a fresh process,
+    // in each locale configuration
+    std::string path = O.outdir + "/" + O.tag + ".first";
+    FILE* f = fopen(path.c_str(), "w");
+    uint64_t n = 0;
+    for (size_t i = (size_t)O.first; i < g_catalogue.size(); i += (size_t)O.stride)
+      for (int loc = 0; loc < 3; loc++) {
+        OpResult r = first_call(g_catalogue[i], loc, O.seed);
+        if (f) fprintf(f, "%016llx %d %d %s\n", (unsigned long long)r.digest, r.failed, r.done, probe_key(g_catalogue[i], loc).c_str());
+        n++;
+      }
+    if (f) fclose(f);
+    char b[128];
+    snprintf(b, sizeof b, "{\"t\":\"first\",\"computed\":%llu}", (unsigned long long)n);
+    emit(b);
+    if (g_out != stdout) fclose(g_out);
+    return 0;
+  }
+  if (!O.first_cache.empty()) {
+    FILE* f = fopen(O.first_cache.c_str(), "r");
+    if (f) {
+      char line[8192];
+      while (fgets(line, sizeof line, f)) {
+        unsigned long long d; int failed, done; int off = 0;
+        if (sscanf(line, "%llx %d %d %n", &d, &failed, &done, &off) >= 3 && off > 0) {
+          std::string key = line + off;
+          if (!key.empty() && key.back() == '\n') key.pop_back();
+          g_first_cache[key] = OpResult{d, (uint8_t)done, (uint8_t)failed, 0, 0, 0};
+        }
+      }
+      fclose(f);
+    }
+  }
   if (O.batch == "strata") build_strata();
   double t0 = now_s();
   long done = 0;
